@@ -917,6 +917,12 @@ func c08AuthOnly(cw *c08World) {
 	if err != nil {
 		run.T.Fatalf("c08: auth-only instance 2: %v", err)
 	}
+	// a third one in reverse-proxy mode (nginx auth_request / forward-auth deployments): the constraints are the ones in
+	// the operator's auth URL, i.e. the request's own query, whatever the client-controlled X-Forwarded-Uri carries
+	q3, err := cw.w.NewProxy("--reverse-proxy=true", "--skip-jwt-bearer-tokens=true", "--htpasswd-file="+cw.ht, "--htpasswd-user-group=hg", "--htpasswd-user-group=a")
+	if err != nil {
+		run.T.Fatalf("c08: auth-only instance 3 (reverse-proxy): %v", err)
+	}
 	sessions := []*c08QSession{
 		{Label: "plain", Email: "toto@example.com", Groups: []string{"a", "b"}},
 		{Label: "subdomain-nogroups", Email: "u@sub.example.com", Groups: []string{}},
@@ -943,6 +949,7 @@ func c08AuthOnly(cw *c08World) {
 		g, e, d c08QOpt
 		inst    *vfProxy
 		iname   string
+		xfu     string // X-Forwarded-Uri sent along (reverse-proxy instance)
 	}
 	var jobs []job
 	for si, s := range sessions {
@@ -982,9 +989,16 @@ func c08AuthOnly(cw *c08World) {
 					if !run.Env.Thorough() && (n+si)%3 != 0 && !(g.Label == "absent" && e.Label == "absent") && !(g.Label == "absent" && d.Label == "absent") && !(e.Label == "absent" && d.Label == "absent") {
 						continue
 					}
-					jobs = append(jobs, job{s, g, e, d, q, "permissive"})
+					jobs = append(jobs, job{s, g, e, d, q, "permissive", ""})
 					if s.lines != nil && n%4 == 0 {
-						jobs = append(jobs, job{s, g, e, d, q2, "restrictive"})
+						jobs = append(jobs, job{s, g, e, d, q2, "restrictive", ""})
+					}
+					if run.Env.Thorough() || n%3 == 0 || (g.Label != "absent" && e.Label == "absent" && d.Label == "absent") {
+						// what the client makes the front proxy forward: a plain URI, its own constraints that the session
+						// satisfies, constraints nobody satisfies, or an attempt to blank the operator's
+						xfus := []string{"/app/page", "/app/page?x=1", "/app?allowed_groups=" + vfQueryEscape(g0) + "&allowed_emails=" + vfQueryEscape(em) + "&allowed_email_domains=" + vfQueryEscape(dom),
+							"/app?allowed_groups=nobody-is-in-this-group&allowed_emails=nobody@nowhere.invalid", "/oauth2/auth?allowed_groups=&allowed_emails=&allowed_email_domains=", "/oauth2/auth"}
+						jobs = append(jobs, job{s, g, e, d, q3, "reverse-proxy", xfus[n%len(xfus)]})
 					}
 				}
 			}
@@ -1022,12 +1036,19 @@ func c08AuthOnly(cw *c08World) {
 		if j.s.auth != "" {
 			req.H("Authorization", j.s.auth)
 		}
+		if j.xfu != "" {
+			req.H("X-Forwarded-Uri", j.xfu)
+		}
 		resp := b.Send(j.inst, req)
 		run.Eval(fmt.Sprintf("authonly|%s|g=%s|e=%s|d=%s|%s|want=%v", j.s.Label, j.g.Label, j.e.Label, j.d.Label, j.iname, allowed))
 		run.Count("authonly_requests", 1)
 		wit := map[string]interface{}{"flags": j.inst.Flags, "session": map[string]interface{}{"kind": j.s.Label, "email": j.s.Email, "groups": j.s.Groups}, "request_target": target,
-			"constraint_items": map[string]interface{}{"groups": j.g.Items, "emails": j.e.Items, "domains": j.d.Items}, "reference_allowed": allowed, "status": resp.Code}
+			"constraint_items": map[string]interface{}{"groups": j.g.Items, "emails": j.e.Items, "domains": j.d.Items}, "reference_allowed": allowed, "status": resp.Code, "x_forwarded_uri": j.xfu}
 		what := fmt.Sprintf("session {%s %+q %+q} GET %s at the %s instance -> %d", j.s.Label, j.s.Email, j.s.Groups, target, j.iname, resp.Code)
+		if j.xfu != "" {
+			what = fmt.Sprintf("session {%s %+q %+q} GET %s with X-Forwarded-Uri: %s at the %s instance -> %d (the constraints are those of the request's own query)", j.s.Label, j.s.Email, j.s.Groups, target, j.xfu, j.iname, resp.Code)
+			run.Count("authonly_requests_with_x_forwarded_uri", 1)
+		}
 		switch {
 		case resp.Panic != "":
 			c08Violation(run, "c08:panic", "auth-only panicked: "+what, wit)
